@@ -275,6 +275,16 @@ def evaluate(case):
             # the stream cannot be produced or decoded: the parser-side properties' business (C08, C10), nothing to judge here
             ev.tags.append("real-undecodable")
             return ev
+        # "its k-th operand": the fields of a record are the operands of the line as objdump printed it (commas outside parentheses)
+        from vlib.refnorm import instruction_lines, line_operand_count
+
+        lines_ = instruction_lines(text)
+        if len(lines_) == len(NV):
+            for (a_, t_), rec_ in zip(lines_, NV):
+                n_ = line_operand_count(t_)
+                if n_ is not None and n_ != len(rec_[2]):
+                    ev.dev("operand-count-differs-from-line", line=t_, operands_on_line=n_, fields=list(rec_[2]), address=a_)
+                    break
         mut = "real-" + mut
         L = NV
     else:
